@@ -60,7 +60,18 @@ def _expand(item):
         if recheck:
             w2 = replay(h, hist2)
             if digest(h.canon(w2)) != c:
-                raise HarnessError(f"nondeterministic replay for history {hist2!r}")
+                # The same history on fresh objects reached a different state.  On the unchanged tree this never happens (every
+                # harness's fresh() resets the global state it knows about), so when it does, something that outlives the objects
+                # -- a module/class-level cache, a mutable default argument -- carries state from one execution into the next:
+                # behaviour depends on hidden history.  Reported as a finding of its own; a third replay tells a one-off
+                # (harness-side) flake from a persistent leak.
+                w3 = replay(h, hist2)
+                d3 = digest(h.canon(w3))
+                if d3 == c:
+                    raise HarnessError(f"nondeterministic replay (flaky, not persistent) for history {hist2!r}")
+                part.violation("execution-independence", "process-global-state", {"history": hist2},
+                               "replaying the same history on fresh objects reached a different state each time: state leaks between "
+                               "executions through something that outlives the objects (module/class-level cache, mutable default)")
             part.count("determinism_rechecks")
         nt = h.nontrivial(w, hist2) if hasattr(h, "nontrivial") else None
         if nt is not None:
